@@ -45,3 +45,17 @@ impl Store {
 }
 #[verifier::external_body]
 pub struct DownloadPolicy { _p: u8 }
+#[verifier::external_body]
+pub struct AuthorHeads { _p: u8 }
+/// std::num::NonZeroU64 (opaque)
+#[verifier::external_body]
+pub struct NonZeroU64 { _p: u8 }
+impl Store {
+    /// what `has_news_for_us` answers on the current contents (verified on the real text in U-heads2-store)
+    pub uninterp spec fn spec_news(&self, ns: NamespaceId, heads: AuthorHeads) -> Option<NonZeroU64>;
+    /// Store::has_news_for_us (fs.rs): a read of the heads table
+    #[verifier::external_body]
+    pub fn has_news_for_us(&mut self, namespace: NamespaceId, heads: &AuthorHeads) -> (r: Result<Option<NonZeroU64>>)
+        ensures store_same(*old(self), *final(self)), r is Ok ==> r->Ok_0 == old(self).spec_news(namespace, *heads)
+    { unimplemented!() }
+}
